@@ -15,6 +15,7 @@ import srcmod
 
 ID = "C10"
 THEOREMS = ["streamOp_untyped_identity", "follow_untyped", "methodCall_untyped", "follow_name", "follow_const", "follow_lambda", "fillLoop_complete"]
+LEANCHECKER_MODULES = ["Fadl.Props.C10Full", "Fadl.Props.C10"]  # re-checked by leanchecker in the thorough tier
 RULE = (
     "single-parameter lambdas over names (pool includes value, id, attr, ctx, lineno, elts, args, func, keys, body, "
     "slice), attributes, calls with positional / keyword / starred arguments, subscripts (constant, variable, negative, "
@@ -103,7 +104,7 @@ def infer(n):
                 k = ast.literal_eval(n.slice)
             except Exception:
                 raise Refuse("lookup in a dictionary literal with a non-constant key")
-            if k not in vt:
+            if not isinstance(k, str) or k not in vt:  # a list / dict literal as key is not hashable: not a field either
                 raise Refuse("key the dictionary literal does not define")
             return vt[k]
         return ANY
@@ -348,6 +349,10 @@ def run(ctx):
         for at in rng.sample(["args", "pt", "jets", "value", "keys"], 2):
             cases.append((rng.choice(["Select", "SelectMany"]), f"{recv}.{at}[{rng.choice(['0', chr(39) + 'zz' + chr(39), 'e.n'])}]({rng.choice(['e', 'e.pt', '1, k=e'])})",
                           rng.choice(["str", "ast", "callable"])))
+    # a dictionary literal looked up with a key that is itself a literal container (not hashable): a designed refusal
+    for key in ["{}", "{'a': 1}", "[1]", "[]", "(1, [2])", "{1}", "('a',)", "b'a'", "None", "1.5"]:
+        cases.append((rng.choice(["Select", "SelectMany", "Where"]), f"{{'pt': 1, 'q': e}}[{key}]", rng.choice(["str", "ast", "callable"])))
+        cases.append(("Select", f"f({{'a': e.x, 'b': 2}}[{key}], 1)", "str"))
     for i in range(0, len(cases), 300):
         typed_noise(rng)
         check_cases(ctx, cases[i : i + 300])
